@@ -403,7 +403,7 @@ pub fn run(r: &Run) {
     r.assume("a received non-Cease NOTIFICATION is not generated: RFC 8538 lets it enter helper mode with the N-bit while the statement says non-Cease errors never do");
     r.prop("gr-histories", r.tier.pick(150_000, 3_000_000), || arb_case(r.tier.pick(16, 32)), check);
     r.assume(WIRE_RULE);
-    r.prop("gr-sessions", r.tier.pick(3_000, 100_000), || arb_case(r.tier.pick(12, 24)), check_wire);
+    r.slow(|| r.prop("gr-sessions", r.tier.pick(3_000, 100_000), || arb_case(r.tier.pick(12, 24)), check_wire));
 }
 
 pub fn replay(sub: &str, case: &Value) -> Result<CheckResult, String> {
